@@ -721,8 +721,11 @@ func main() {
 				if strings.HasPrefix(rr.panicMsg, "DEADLOCK") {
 					kind = "deadlock"
 				}
-				if strings.HasPrefix(rr.panicMsg, "ORACLE") {
-					kind = "wrong-answer-count"
+				if strings.HasPrefix(rr.panicMsg, "ORACLE[") {
+					// an oracle of the free-running workload: the violation kind is in the message
+					if j := strings.IndexByte(rr.panicMsg, ']'); j > 7 {
+						kind = rr.panicMsg[7:j]
+					}
 				}
 			}
 			path := filepath.Join(verifDir, "replays", fmt.Sprintf("%s-%s-race-%d.json", prop, kind, rr.index))
